@@ -142,8 +142,8 @@ def delta(q, sym):
             q = _flag(q, "C08.b: a side effect runs before the call is counted")
         return _set(q, inc=min(d["inc"] + 1, 2))
     if sym == "retire_pred":
-        if d["inc"] == 0:
-            q = _flag(q, "C05.d.3: predecessors are retired although the call was not counted")
+        # (whether the count is incremented just before or just after is immaterial: both are unobservable steps of
+        # one critical section; what matters is checked at the path's end - retired only together with counting)
         return _set(q, rp=True)
     if sym == "retire":
         if d["sat"] is not True:
@@ -186,6 +186,8 @@ def exit_check(q, kind):
         else:
             out.append("C05.d.4: a monitored destruction must count as having happened exactly once, also when it "
                        "is out of sequence; on this path it is counted %s" % ("0 times" if d["inc"] == 0 else "more than once"))
+    if d["rp"] and d["inc"] == 0:
+        out.append("C05.d.3: predecessors are retired although the call was not counted")
     if d["inc"] >= 1 and not d["rp"] and not (kind == "death" and d["satf"] is False):
         out.append("C05.d.3: a matched step does not retire its predecessors on this path "
                    "(something registered before it could match again)")
@@ -247,6 +249,17 @@ def report(ctx, tu, prefix_filter, unit=None):
     one obligation per (rule clause, consumer)."""
     rules_seen = {}
     consumers = [(A["run_actions"], "call", 5), (A["notify"], "death", 1)]
+    # the automaton reads the protocol off calls of these functions; when one of them no longer exists under its
+    # name (renamed / merged away) nothing can be concluded from its absence on a path
+    need = [A["is_forbidden"], A["can_be_called"], A["is_saturated"], A["increment_call"], A["retire_predecessors"],
+            A["retire"], A["validate"]]
+    missing = [n for n in need if not tu.find(n, body=False)]
+    if missing and tu.find(A["run_actions"]):
+        for rid in ALL_RULES:
+            if prefix_filter(rid):
+                ctx.ob(rid, "protocol anchors", None, unit=tu.name,
+                       detail="the protocol step(s) %s are not found under their names in unit %s" % (", ".join(missing), tu.name))
+        return rules_seen
     for qname, kind, floor in consumers:
         fns = tu.find(qname)
         if len(fns) < floor:
